@@ -10,7 +10,7 @@ META = {
     'functions': ['utilities.TrackedArray (dirty bits)', 'boundary.BoundaryFace setters/utility methods/periodic', 'boundary.BoundaryConditionsBase.modified',
                   'cell.CellVariable.__init__/value setter/apply_BCs/update_value/copy/arithmetic', 'pdesolver.solvePDE', 'pdesolver.solveExplicitPDE',
                   'boundary.boundaryConditionsTerm*', 'boundary.cellValuesWithBoundaries*'],
-    'bounds': 'bounded-exhaustive histories over an alphabet of 23 edit/solve operations (all values written are fresh symbols, so one history covers '
+    'bounds': 'bounded-exhaustive histories over an alphabet of 24 edit/solve operations (all values written are fresh symbols, so one history covers '
               'all values): every history of length <= 2 (quick) / <= 3 (thorough) on Grid1D N=2, plus every history of length <= 2 (thorough) / a '
               'covering set (quick) on Grid2D (2,2), PolarGrid2D (2,2), CylindricalGrid1D N=2, Grid3D (2,2,2); both construction styles (BCs passed '
               'in or defaulted); followed by an implicit or explicit solve compared entry by entry (captured system, stored values, ghost layer) '
@@ -69,6 +69,7 @@ def _ops(ctx, g, m, dims):
     O['fixedValue'] = lambda st, k: getattr(st.phi.BCs, lo).fixedValue(S(k, 'fv'))
     O['fixedGradient'] = lambda st, k: getattr(st.phi.BCs, hi).fixedGradient(S(k, 'fg'))
     O['newtonCooling'] = lambda st, k: getattr(st.phi.BCs, hi).newtonCooling(S(k, 'nk'), S(k, 'nh'), S(k, 'nT'))
+    O['newtonCooling_reversed'] = lambda st, k: getattr(st.phi.BCs, lo).newtonCooling(S(k, 'rk'), S(k, 'rh'), S(k, 'rT'), reverse_direction=True)
     O['defaultNoFlux'] = lambda st, k: getattr(st.phi.BCs, lo).defaultNoFlux()
     if per_side:
         O['periodic_on'] = lambda st, k: setattr(getattr(st.phi.BCs, per_side), 'periodic', True)
@@ -229,7 +230,7 @@ def histories(ctx, g, dims, seqs, final='implicit', style='passed'):
 
 
 def alphabet(g, dims):
-    names = ['set_a', 'set_b_slice', 'set_c', 'fixedValue', 'fixedGradient', 'newtonCooling', 'defaultNoFlux', 'value_assign', 'value_slice',
+    names = ['set_a', 'set_b_slice', 'set_c', 'fixedValue', 'fixedGradient', 'newtonCooling', 'newtonCooling_reversed', 'defaultNoFlux', 'value_assign', 'value_slice',
              'update_value', 'update_value_then_edit_both', 'copy', 'add_var', 'rmul_scalar', 'neg', 'apply_BCs', 'solvePDE', 'solveExplicitPDE', 'solveExplicitPDE_keep_input',
              'shared_bc_other_solves',
              'shared_bc_other_applies']
